@@ -382,6 +382,31 @@ def invalid_families():
         '</dtml-if>', '<dtml-let x="1+">a</dtml-let>',
         '<dtml-in "x y">a</dtml-in>', '<dtml-call "def">',
         '<dtml-let x="a b" y=c>a</dtml-let>')
+    # expressions that the parser accepts and the byte-code compiler
+    # refuses are bad expressions like any other
+    add('bad-expression-shorthand', '<dtml-var "f(a=1, a=2)">',
+        '<dtml-let f="lambda a, a: a">x</dtml-let>',
+        '<dtml-with "(yield)">x</dtml-with>', '<dtml-call "await x">',
+        '<dtml-if "x" ><dtml-elif "(yield x)">a</dtml-if>',
+        '<dtml-in "[y for y in s if (y := 1)]">a</dtml-in>',
+        '<dtml-var "f(**{}, *a)">', '<dtml-if "x := 1">a</dtml-if>',
+        '<dtml-var "nonlocal_ if 1 else (yield)">',
+        '<dtml-return "f(x for x in y, 1)">', '<dtml-unless "*a">u'
+        '</dtml-unless>')
+    # continuation tags with nothing between them
+    add('repeated-continuation',
+        '<dtml-try>a<dtml-else><dtml-else>c</dtml-try>',
+        '<dtml-try>a<dtml-except>b<dtml-else><dtml-except>c</dtml-try>',
+        '<dtml-try>a<dtml-except><dtml-else><dtml-else></dtml-try>',
+        '<dtml-try><dtml-else>\n<dtml-except>c</dtml-try>',
+        '<dtml-try><dtml-finally><dtml-finally></dtml-try>',
+        '<dtml-try><dtml-finally><dtml-except></dtml-try>',
+        '<dtml-try><dtml-except><dtml-except></dtml-try>',
+        '<dtml-if a><dtml-else><dtml-else></dtml-if>',
+        '<dtml-if a><dtml-else><dtml-elif b></dtml-if>',
+        '<dtml-if a><dtml-else>\n<dtml-else>\n</dtml-if>',
+        '<dtml-in s><dtml-else><dtml-else></dtml-in>',
+        '<dtml-in s><dtml-else> \n<dtml-else>x</dtml-in>')
     add('malformed-attributes', '<dtml-var x =>', '<dtml-var x a="b>c">',
         '<dtml-let x>a</dtml-let>', '<dtml-let x= y>a</dtml-let>',
         '<dtml-var x "y">', '<dtml-in s "t">a</dtml-in>')
